@@ -41,6 +41,8 @@ type Script struct {
 	refStamp  map[string]int               // reference-valued terms read from memory: number of allocations made before the read
 	seq       int
 	lineTag   map[int]string               // line index -> tag of a droppable labelled hypothesis
+	lineLoop  map[int]string               // line index -> allocation base of the loop body in which the hypothesis was assumed
+	curLoop   string                       // set by the engine: allocation base of the loop body being executed
 	defs      map[string]string            // defined name -> body (definitions without binders)
 	elemFacts map[string]map[string]string // declared array -> literal index -> element term
 	lines     []string
@@ -200,6 +202,12 @@ func (s *Script) assumeTagged(tag, t string) {
 	for i := n; i < len(s.lines); i++ {
 		if strings.HasPrefix(s.lines[i], "(assert ") {
 			s.lineTag[i] = tag
+			if s.curLoop != "" {
+				if s.lineLoop == nil {
+					s.lineLoop = map[int]string{}
+				}
+				s.lineLoop[i] = s.curLoop
+			}
 		}
 	}
 }
@@ -215,13 +223,18 @@ func (s *Script) addTagged(tag, line string) {
 
 // textUsing is text without the labelled hypotheses that match none of the names in using
 // (a name matches a tag if it is the tag or its last components). Dropping hypotheses is sound.
-func (s *Script) textUsing(upto int, using []string) string {
+func (s *Script) textUsing(upto int, using []string, inLoop string) string {
 	if using == nil || len(s.lineTag) == 0 {
 		return s.text(upto)
 	}
 	var b strings.Builder
 	for i := 0; i < upto; i++ {
 		if tag, ok := s.lineTag[i]; ok {
+			if l, ok := s.lineLoop[i]; ok && l != inLoop {
+				// assumed inside the body of a loop that this obligation is not in: about a state that
+				// is gone (after a loop only its invariants at the loop head are known)
+				continue
+			}
 			keep := false
 			for _, u := range using {
 				if tag == u || strings.HasSuffix(tag, "."+u) {
